@@ -57,6 +57,9 @@ def name_resolution(K, present, sel):
     want = [n for n in sel if n in present]
     K.ensure("exactly the selected names that exist, in selection order", list(src) == want and list(tgt) == [n.upper() for n in want])
     K.ensure("context names are the databox names", tuple(ctx) == tuple(present))
+    src3, tgt3, _ = K.method(db, "_resolve_source_target_names", list(sel), ["T_" + n for n in sel], False)
+    K.ensure("an explicit list of target names stays paired with its source names when some sources are missing",
+             list(zip(src3, tgt3)) == [(n, "T_" + n) for n in sel if n in present])
     src2, _, _ = K.method(db, "_resolve_source_target_names", lambda n: n in sel, None, False)
     K.ensure("predicate selection == list selection", list(src2) == [n for n in present if n in sel])
     K.ensure("get_missing_names", tuple(K.method(db, "get_missing_names", list(sel))) == tuple(n for n in sel if n not in present))
@@ -94,6 +97,11 @@ def rename_and_shallow(K, present, sel):
     K.ensure("shallow: a new databox holding the same objects under the target names",
              sh is not db and set(ms) == {"new_" + n for n in sel if n in present} and all(ms["new_" + n] is vals[n] for n in sel if n in present))
     K.ensure("shallow leaves the source untouched", set(view(K, db)) == set(present) and all(K.index(db, n) is vals[n] for n in present))
+    db, vals = box(K, present)
+    K.method(db, "rename", list(sel), ["t_" + n for n in sel], strict_names=False)
+    m = view(K, db)
+    want = {("t_" + n if n in sel else n): vals[n] for n in present}
+    K.ensure("rename with an explicit target list and missing sources (non-strict): every existing source gets ITS target", set(m) == set(want) and all(m[n] is want[n] for n in m))
 
 
 @contract("C19", targets=[PD + "Databox.__or__"], instances=[(p, s) for p in SUBSETS for s in SUBSETS], cross=2)
@@ -330,8 +338,56 @@ def canary_remove_removes_everything(K, present, sel):
     K.ensure("WRONG: remove empties the databox", len(view(K, db)) == 0)
 
 
+# ------------------------------------------------------------------------------ CSV export: one block of columns per frequency
+from irispie.databoxes import _exports as EXP
+PE = "irispie.databoxes._exports:"
+
+
+@contract("C19", targets=[PE + "_ExportBlock.__iter__", PE + "_get_descriptions_for_names", PE + "_get_num_data_columns_for_names", PE + "_get_data_array_for_names",
+                          PE + "_get_frequency_mark"], instances=[(d, extra) for d in (False, True) for extra in (0, 2)], opts={"max_paths": 600})
+def export_block_rows_are_rectangular(K, with_descriptions, extra_rows):
+    """The rows one frequency block contributes to the CSV sheet (blocks are written side by side, row by row): a name
+    row (frequency mark, each name followed by one `*` per further variant), optionally a description row of the same
+    layout, one row per period (date, the values of every variant of every series, NaN as nan_str), then filler rows up
+    to the height of the tallest block.  EVERY row has the same number of cells - otherwise the cells of the blocks to
+    the right shift and the file no longer reads back."""
+    cls = D.QuarterlyPeriod
+    start = K.int("start", 8000, 8100)
+    a = K.array("a", (2, 1))
+    b = K.array("b", (2, 2))
+    sa = K.obj(Series, start=K.obj(cls, serial=start), data=a, data_type=np.float64, metadata={}, __description__="first")
+    sb = K.obj(Series, start=K.obj(cls, serial=start), data=b, data_type=np.float64, metadata={}, __description__="second")
+    db = K.call(Databox)
+    K.setitem(db, "a", sa)
+    K.setitem(db, "b", sb)
+    periods = (K.obj(cls, serial=start), K.obj(cls, serial=start + 1))
+    fmt = K.callable(lambda p: ("date", K.attr(p, "serial")))
+    blk = K.call(EXP._ExportBlock, databox=db, frequency=D.Frequency.QUARTERLY, periods=periods, names=("a", "b"), total_num_data_rows=2 + extra_rows,
+                 description_row=with_descriptions, delimiter=",", numeric_format="g", nan_str="NA", round=None, date_formatter=fmt)
+    rows = [tuple(K.items(r)) for r in K.items(K.call(EXP._ExportBlock.__iter__, blk))]
+    nhead = 2 if with_descriptions else 1
+    K.ensure("number of rows: header rows + tallest block", len(rows) == nhead + 2 + extra_rows)
+    K.ensure("every row has 1 + (number of data columns) + 1 cells", all(len(r) == 5 for r in rows))
+    K.ensure("name row", rows[0] == ("__quarterly__", "a", "b", "*", ""))
+    if with_descriptions:
+        K.ensure("description row", rows[1] == ("", "first", "second", "*", ""))
+    for i in range(2):
+        r = rows[nhead + i]
+        if len(r) != 5:
+            continue
+        K.ensure(f"data row {i}: date cell and closing cell", K.And(r[0][0] == "date", r[0][1] == start + i, r[4] == ""))
+        for j, cell in enumerate((K.cell(a, i, 0), K.cell(b, i, 0), K.cell(b, i, 1))):
+            got = r[1 + j]
+            if isinstance(got, str):
+                K.ensure(f"data row {i} column {j}: a missing value is written as nan_str", K.And(got == "NA", K.cell_is_nan(cell)))
+            else:
+                K.ensure(f"data row {i} column {j}: the value of that series and variant", K.cell_eq(K.real_cell(got) if not K.is_cell(got) else got, cell))
+    for r in rows[nhead + 2:]:
+        K.ensure("filler rows are empty cells", all(c == "" for c in r))
+
+
 # ------------------------------------------------------------------------------ CSV round trip: bounded stand-in (NOT a proof)
-@bounded("C19", bound="databoxes of 1-4 series over {yearly, quarterly, monthly, integer} frequencies, nested/staggered spans of 1-12 periods, 1-2 variants, interior NaNs, descriptions; 60 boxes quick / 600 thorough; values rounded to 8 decimals")
+@bounded("C19", bound="databoxes of 1-4 series over {yearly, quarterly, monthly, integer} frequencies (one frequency per box, every third box mixed), nested/staggered spans of 1-12 periods, 1-2 variants, interior NaNs, descriptions; 60 boxes quick / 600 thorough; values rounded to 8 decimals")
 def csv_roundtrip_native(B):
     """to_csv_file / from_csv_file return the same names, descriptions, frequencies, spans and values."""
     import os, tempfile
@@ -339,12 +395,14 @@ def csv_roundtrip_native(B):
     tmp = tempfile.mkdtemp(prefix="pyvc_csv_")
     try:
         for k in range(600 if B.thorough else 60):
-            cls = rng.choice([D.YearlyPeriod, D.QuarterlyPeriod, D.MonthlyPeriod, D.IntegerPeriod])
-            F = int(cls.frequency) or 1
-            base = 2000 * F if cls is not D.IntegerPeriod else 5
+            cls0 = rng.choice([D.YearlyPeriod, D.QuarterlyPeriod, D.MonthlyPeriod, D.IntegerPeriod])
+            mixed = k % 3 == 2            # every third box mixes frequencies (blocks of different heights side by side)
             db = Databox()
             nser = rng.randint(1, 4)
             for i in range(nser):
+                cls = rng.choice([D.YearlyPeriod, D.QuarterlyPeriod, D.MonthlyPeriod, D.IntegerPeriod]) if mixed else cls0
+                F = int(cls.frequency) or 1
+                base = 2000 * F if cls is not D.IntegerPeriod else 5
                 n = rng.randint(1, 12)
                 nv = rng.randint(1, 2)
                 start = cls(base + rng.randint(0, 8))
